@@ -12,7 +12,11 @@ import Bng.Model.AcctBackoff
     * API calls (`start`, `interim`, `stop`, `shutdown`, `restart`) and their micro-steps `tick ans`
       (one per persist/transmit/remove point of the Go code),
     * steps of the background processor (`deq`, `retry`) and their micro-steps `ptick ans`, which run
-      CONCURRENTLY with the API call in progress (two program counters),
+      CONCURRENTLY with the API call in progress,
+    * the interim goroutine: `interim s` puts an Interim-Update of a registered session in flight (identifiers and
+      counters captured), `itick ans` sends it and handles the answer; it also runs CONCURRENTLY with the API call
+      in progress and with the processor (three program counters), so StopSession may run to completion between
+      an interim update's send and its acknowledgement,
     * `crash` (drops the volatile state) and `crashTorn` (crash in the middle of a persist step's file write).
   `ans : Ans` is the RADIUS server's answer to the request that step sends: `up` (accepted, acknowledged),
   `down` (not received), `lost` (accepted, but the client sees a failure: reply lost or late).
@@ -399,6 +403,16 @@ theorem backoff_overflow_witness :
   decide
 
 
+/-! ## the interim goroutine -/
+
+/-- Sending an interim update and handling its answer writes NOTHING durable: whatever happened to the session
+    while the update was in flight (StopSession may have completed and removed the session file), the late
+    acknowledgement cannot bring a session file back from which a recovery would send the Stop again.
+    (no_dup_stop_without_crash holds for every interleaving of the three threads; this is the local fact
+    the correspondence run checks at every `interim` operation through `dur=`.) -/
+theorem interim_ack_writes_nothing_durable (σ : State) (a : Ans) : (step σ (.itick a)).dur = σ.dur :=
+  itick_ghost State.dur (fun _ _ => rfl) (fun _ _ _ => rfl) (fun _ _ _ => rfl) (fun _ _ => rfl) σ a
+
 /-! non-vacuity -/
 example : ∃ ops : List Op, Op.crash ∉ ops ∧ Op.crashTorn ∉ ops ∧
     ((run (init ⟨3, 8⟩) ops).registered.map (·.1)).Nodup ∧ (run (init ⟨3, 8⟩) ops).log.length = 4 :=
@@ -410,6 +424,13 @@ example : ∃ ops : List Op, (run (init ⟨3, 8⟩) ops).up = false ∧ (run (in
   ⟨[.start 1 1, .tick .up, .tick .up, .crashTorn], by decide, by decide, Or.inl (by decide)⟩
 example : ∃ ops, (run (init ⟨3, 8⟩) ops).started ≠ [] ∧ (run (init ⟨3, 8⟩) ops).recVol = [] :=
   ⟨[.start 1 1, .tick .up, .tick .up], by decide⟩
+/-- StopSession runs to completion while an interim update of the session is in flight; the update is accepted
+    after the Stop, nothing is left on disk -/
+example : ∃ ops : List Op, Op.crash ∉ ops ∧ (run (init ⟨3, 8⟩) ops).log.length = 3 ∧
+    (run (init ⟨3, 8⟩) ops).dur.files = [] ∧ (run (init ⟨3, 8⟩) ops).vol.ipc = none ∧
+    (run (init ⟨3, 8⟩) ops).ackedStops = [1] :=
+  ⟨[.start 1 1, .tick .up, .tick .up, .interim 1, .stop 1 1, .tick .up, .tick .up, .tick .up, .tick .up, .itick .up],
+   by simp, by decide, by decide, by decide, by decide⟩
 example : ∃ ops r, r ∈ (run (init ⟨3, 8⟩) ops).log ∧ r.kind = .stop ∧ r.sid ∉ (run (init ⟨3, 8⟩) ops).startQueued :=
   ⟨[.start 1 1, .tick .up, .tick .up, .stop 1 1, .tick .up, .tick .up],
    ⟨.stop, 1, 1, 1, 0, 0⟩, by decide⟩
